@@ -290,4 +290,36 @@ func c14initMore() {
 			err := c14zdes(b, v.Deserialize)
 			return []c14field{{n: v.Epoch}}, err
 		}})
+	// ---- history block bodies and the epoch accumulator (fastssz)
+	txs := c14fs{name: "Transactions", kind: 'L', max: 16384, itemMax: 16777216, noItemOver: true}
+	c14reg(&c14type{name: "BodyLegacy", tableAt: 8, fixOffs: []int{0, 4},
+		fields: []c14fs{txs, {name: "Uncles", kind: 'B', max: 131072}},
+		enc: func(f []c14field) ([]byte, error) {
+			return (&hnet.BlockBodyLegacy{Transactions: f[0].l, Uncles: f[1].b}).MarshalSSZ()
+		},
+		dec: func(b []byte) ([]c14field, error) {
+			var v hnet.BlockBodyLegacy
+			err := v.UnmarshalSSZ(b)
+			return []c14field{{l: v.Transactions}, {b: v.Uncles}}, err
+		}})
+	c14reg(&c14type{name: "BodyShanghai", tableAt: 12, fixOffs: []int{0, 4, 8},
+		fields: []c14fs{txs, {name: "Uncles", kind: 'B', max: 131072}, {name: "Withdrawals", kind: 'L', max: 16, itemMax: 192}},
+		enc: func(f []c14field) ([]byte, error) {
+			return (&hnet.PortalBlockBodyShanghai{Transactions: f[0].l, Uncles: f[1].b, Withdrawals: f[2].l}).MarshalSSZ()
+		},
+		dec: func(b []byte) ([]c14field, error) {
+			var v hnet.PortalBlockBodyShanghai
+			err := v.UnmarshalSSZ(b)
+			return []c14field{{l: v.Transactions}, {b: v.Uncles}, {l: v.Withdrawals}}, err
+		}})
+	c14reg(&c14type{name: "EpochAcc", tableAt: -1, small: true,
+		fields: []c14fs{{name: "HeaderRecords", kind: 'L', max: 8192, cnt: 8192, itemExact: 64}},
+		enc: func(f []c14field) ([]byte, error) {
+			return (&hnet.EpochAccumulator{HeaderRecords: f[0].l}).MarshalSSZ()
+		},
+		dec: func(b []byte) ([]c14field, error) {
+			var v hnet.EpochAccumulator
+			err := v.UnmarshalSSZ(b)
+			return []c14field{{l: v.HeaderRecords}}, err
+		}})
 }
